@@ -671,7 +671,7 @@ Inductive perr :=
 | PMultipleSteps          (* MultipleDerivationPathIndexSteps: a second tuple *)
 | PInvalidMultiIndexStep  (* InvalidMultiIndexStep: fewer than two indexes, or (since /repo
                              109461ce) an index listed twice *)
-| PTooLong.               (* DerivationPathTooLong (since /repo fc4edba4) *)
+| PTooLong.               (* DerivationPathTooLong (since /repo fc4edba4, dda43848) *)
 Inductive pres (A : Type) := POk (a : A) | PErr (e : perr).
 Arguments POk {A} a. Arguments PErr {A} e.
 Definition perr_eqb (a b : perr) : bool :=
@@ -720,7 +720,11 @@ Definition parse_xpub_key (o : origin) (x : N) (depth : N) (toks : list tok) : p
   match parse_xkey_deriv toks with
   | PErr e => PErr e
   | POk (paths, w) =>
-      if existsb (fun p => N.ltb 255 (depth + N.of_nat (length p) + wildcard_steps w)) paths
+      (* /repo dda43848: without explicit steps there is no path in the list, but the
+         wildcard still is a derivation step *)
+      let too_deep := fun len : nat => N.ltb 255 (depth + N.of_nat len + wildcard_steps w) in
+      if existsb (fun p => too_deep (length p)) paths
+         || match paths with [] => too_deep 0%nat | _ => false end
       then PErr PTooLong
       else match paths with
            | _ :: _ :: _ => POk (KMulti o x paths w)
